@@ -185,11 +185,24 @@ fn alias_string(gen: &Generator) -> String {
     edges.dedup();
     let e: Vec<String> = edges.iter().map(|(a, b)| format!("{}>{}", a, b)).collect();
     let s: Vec<String> = stack.iter().map(|i| i.to_string()).collect();
+    // the registry of cells modified in place: entries in total / entries whose cell is reachable
+    let registered = gen.state.mutated.len();
+    let reachable = gen
+        .state
+        .mutated
+        .iter()
+        .filter(|w| {
+            w.upgrade()
+                .is_some_and(|c| ids.contains_key(&(Rc::as_ptr(&c) as *const () as usize)))
+        })
+        .count();
     format!(
-        "ALIAS {} {} {}",
+        "ALIAS {} {} {} m={}:{}",
         if s.is_empty() { "-".to_string() } else { s.join(",") },
         if memo.is_empty() { "-".to_string() } else { memo.join(",") },
-        if e.is_empty() { "-".to_string() } else { e.join(",") }
+        if e.is_empty() { "-".to_string() } else { e.join(",") },
+        registered,
+        reachable
     )
 }
 
